@@ -198,6 +198,13 @@ deriving Repr, DecidableEq, Inhabited
 /-- does the association list bind `a`? (keys only) -/
 def hasKey (a : String) (kvs : List (String × TExpr)) : Bool := kvs.any (fun kv => kv.1 == a)
 
+/-- the operators `check_expr_level` treats as entity dereferences of their first argument -/
+def isDerefOp : BinaryOp → Bool
+  | .mem => true
+  | .hasTag => true
+  | .getTag => true
+  | _ => false
+
 -- `check_entity_deref_target_level`: the returned `EntityDerefLevel`.
 -- `act` is `env.action_entity_uid()`; the path's head is the top of Rust's `access_path` stack.
 mutual
@@ -206,20 +213,26 @@ def derefLevel (act : EntityUID) : TExpr → List String → Nat
   | .slot _, _ => 0
   | .lit _, _ => 0
   | .ite _ t e, p => max (derefLevel act t p) (derefLevel act e p)
-  | .getAttr .entity e _, p => derefLevel act e p + 1
-  | .getAttr .record e a, p => derefLevel act e (a :: p)
-  | .getAttr .other _ _, _ => 0
-  | .binaryApp .getTag a _, p => derefLevel act a p + 1
-  | .record _, [] => 0
-  | .record kvs, a :: p =>
-    match derefLevelKVs act a p kvs with
-    | some l => l
-    | none => 0
+  | .getAttr k e a, p =>
+    match k with
+    | .entity => derefLevel act e p + 1
+    | .record => derefLevel act e (a :: p)
+    | .other => 0
+  | .binaryApp op a _, p =>
+    match op with
+    | .getTag => derefLevel act a p + 1
+    | _ => 0
+  | .record kvs, p =>
+    match p with
+    | [] => 0
+    | a :: p' =>
+      match derefLevelKVs act a p' kvs with
+      | some l => l
+      | none => 0
   | .unknown _ _, _ => 0
   | .and _ _, _ => 0
   | .or _ _, _ => 0
   | .unaryApp _ _, _ => 0
-  | .binaryApp _ _ _, _ => 0
   | .call _ _, _ => 0
   | .hasAttr _ _ _, _ => 0
   | .like _ _, _ => 0
@@ -234,25 +247,36 @@ def derefLevelKVs (act : EntityUID) (a : String) (p : List String) : List (Strin
     | none => if k == a then some (derefLevel act e p) else none
 end
 
+/-- the `maximum_level_exceeded` check: `deref_target_lvl >= self.max_level`, reported with `deref_target_lvl.increment()` -/
+def exceeds (n lvl : Nat) : List LevelErr := if lvl ≥ n then [.maxExceeded (lvl + 1)] else []
+
 -- the errors `check_entity_deref_target_level` / `check_expr_level` insert, for maximum level `n`
 mutual
 def derefErrs (n : Nat) (act : EntityUID) : TExpr → List String → List LevelErr
   | .var _, _ => []
   | .slot _, _ => [.litDeref]
-  | .lit (.entityUID u), _ => if u == act then [] else [.litDeref]
-  | .lit _, _ => [.internal]
+  | .lit l, _ =>
+    match l with
+    | .entityUID u => if u == act then [] else [.litDeref]
+    | _ => [.internal]
   | .ite c t e, p => checkExpr n act c ++ (derefErrs n act t p ++ derefErrs n act e p)
-  | .getAttr .entity e _, p => derefErrs n act e p
-  | .getAttr .record e a, p => derefErrs n act e (a :: p)
-  | .getAttr .other _ _, _ => [.internal]
-  | .binaryApp .getTag a b, p => derefErrs n act a p ++ checkExpr n act b
-  | .record _, [] => [.internal]
-  | .record kvs, a :: p => if hasKey a kvs then derefErrsKVs n act a p kvs else [.internal]
+  | .getAttr k e a, p =>
+    match k with
+    | .entity => derefErrs n act e p
+    | .record => derefErrs n act e (a :: p)
+    | .other => [.internal]
+  | .binaryApp op a b, p =>
+    match op with
+    | .getTag => derefErrs n act a p ++ checkExpr n act b
+    | _ => [.internal]
+  | .record kvs, p =>
+    match p with
+    | [] => [.internal]
+    | a :: p' => if hasKey a kvs then derefErrsKVs n act a p' kvs else [.internal]
   | .unknown _ _, _ => [.internal]
   | .and _ _, _ => [.internal]
   | .or _ _, _ => [.internal]
   | .unaryApp _ _, _ => [.internal]
-  | .binaryApp _ _ _, _ => [.internal]
   | .call _ _, _ => [.internal]
   | .hasAttr _ _ _, _ => [.internal]
   | .like _ _, _ => [.internal]
@@ -273,22 +297,20 @@ def checkExpr (n : Nat) (act : EntityUID) : TExpr → List LevelErr
   | .and a b => checkExpr n act a ++ checkExpr n act b
   | .or a b => checkExpr n act a ++ checkExpr n act b
   | .unaryApp _ a => checkExpr n act a
-  | .binaryApp .mem a b =>
-    derefErrs n act a [] ++ ((if derefLevel act a [] ≥ n then [.maxExceeded (derefLevel act a [] + 1)] else []) ++ checkExpr n act b)
-  | .binaryApp .hasTag a b =>
-    derefErrs n act a [] ++ ((if derefLevel act a [] ≥ n then [.maxExceeded (derefLevel act a [] + 1)] else []) ++ checkExpr n act b)
-  | .binaryApp .getTag a b =>
-    derefErrs n act a [] ++ ((if derefLevel act a [] ≥ n then [.maxExceeded (derefLevel act a [] + 1)] else []) ++ checkExpr n act b)
-  | .binaryApp _ a b => checkExpr n act a ++ checkExpr n act b
+  | .binaryApp op a b =>
+    if isDerefOp op then derefErrs n act a [] ++ (exceeds n (derefLevel act a []) ++ checkExpr n act b)
+    else checkExpr n act a ++ checkExpr n act b
   | .call _ args => checkList n act args
-  | .getAttr .entity e _ =>
-    derefErrs n act e [] ++ (if derefLevel act e [] ≥ n then [.maxExceeded (derefLevel act e [] + 1)] else [])
-  | .getAttr .record e _ => checkExpr n act e
-  | .getAttr .other _ _ => [.internal]
-  | .hasAttr .entity e _ =>
-    derefErrs n act e [] ++ (if derefLevel act e [] ≥ n then [.maxExceeded (derefLevel act e [] + 1)] else [])
-  | .hasAttr .record e _ => checkExpr n act e
-  | .hasAttr .other _ _ => [.internal]
+  | .getAttr k e _ =>
+    match k with
+    | .entity => derefErrs n act e [] ++ exceeds n (derefLevel act e [])
+    | .record => checkExpr n act e
+    | .other => [.internal]
+  | .hasAttr k e _ =>
+    match k with
+    | .entity => derefErrs n act e [] ++ exceeds n (derefLevel act e [])
+    | .record => checkExpr n act e
+    | .other => [.internal]
   | .like e _ => checkExpr n act e
   | .is e _ => checkExpr n act e
   | .set es => checkList n act es
